@@ -849,6 +849,11 @@ class Interp:
                 return CoroVal(f, list(args), dict(kwargs))
             if f.is_gen:
                 raise Unsupported("generator call")
+            if f.marks.get("cached"):
+                for v in list(args) + list(kwargs.values()):
+                    if not (v is None or isinstance(v, (str, ClassVal)) or (isinstance(v, Sym) and v.kind == "str")):
+                        raise Unsupported(f"{f.qualname} is wrapped in functools.cache, which keys its arguments by == and hash: only str, None and "
+                                          f"class arguments are modelled as 'same key = same argument' (got {type(v).__name__})")
             return self.run_function(f, args, kwargs, fr, node)
         if isinstance(f, Builtin):
             return f.fn(self, list(args), kwargs)
